@@ -313,7 +313,15 @@ class Model:
             c = m.classes.get(clsname)
             if c is None or meth not in c.methods:
                 raise AnalysisError("anchor vanished: xmlchemy.%s.%s" % (clsname, meth))
-            for n in ast.walk(c.methods[meth].node):
+            # the closure is read in the canonical form of its enclosing method: helper methods of the declaration class that
+            # the closure calls (`self._replace_group_member(obj)`) are inlined
+            from .inline import expand as _expand
+
+            try:
+                outer = _expand(self.prog, c.methods[meth], local_only=True)
+            except Exception:  # noqa: BLE001 - fall back to the source form
+                outer = c.methods[meth].node
+            for n in ast.walk(outer):
                 if isinstance(n, ast.FunctionDef) and n.name == innername:
                     return n, c.methods[meth]
             raise AnalysisError("anchor vanished: xmlchemy.%s.%s.%s" % (clsname, meth, innername))
